@@ -162,8 +162,14 @@ impl Literal {
         match (self, ty) {
             (Literal::True, Type::Bool) => true,
             (Literal::False, Type::Bool) => true,
-            (Literal::NumUnsigned(_, ty1), Type::Unsigned(ty2)) if ty1 == ty2 => true,
-            (Literal::NumSigned(_, ty1), Type::Signed(ty2)) if ty1 == ty2 => true,
+            // (a number must be representable in the type, otherwise it would be silently truncated
+            // when it is converted to bits)
+            (Literal::NumUnsigned(n, ty1), Type::Unsigned(ty2)) if ty1 == ty2 => {
+                ty2.max().is_none_or(|max| *n <= max)
+            }
+            (Literal::NumSigned(n, ty1), Type::Signed(ty2)) if ty1 == ty2 => {
+                ty2.min().is_none_or(|min| *n >= min) && ty2.max().is_none_or(|max| *n <= max)
+            }
             (Literal::ArrayRepeat(elem, size1), Type::Array(elem_ty, size2)) => {
                 size1 == size2 && elem.is_of_type(checked, elem_ty)
             }
@@ -179,7 +185,12 @@ impl Literal {
                         for (field_name, field_type) in struct_def.fields.iter() {
                             struct_def_fields.insert(field_name, field_type);
                         }
+                        let mut seen_fields = HashSet::with_capacity(fields.len());
                         for (field_name, field_literal) in fields.iter() {
+                            // (every field of the struct must be given exactly once)
+                            if !seen_fields.insert(field_name) {
+                                return false;
+                            }
                             if let Some(expected_type) = struct_def_fields.get(field_name) {
                                 if !field_literal.is_of_type(checked, expected_type) {
                                     return false;
@@ -208,10 +219,11 @@ impl Literal {
                             match (fields1, variant2) {
                                 (VariantLiteral::Unit, Variant::Unit(_)) => return true,
                                 (VariantLiteral::Tuple(fields1), Variant::Tuple(_, fields2)) => {
-                                    return fields1
-                                        .iter()
-                                        .zip(fields2.iter())
-                                        .all(|(f, ty)| f.is_of_type(checked, ty));
+                                    return fields1.len() == fields2.len()
+                                        && fields1
+                                            .iter()
+                                            .zip(fields2.iter())
+                                            .all(|(f, ty)| f.is_of_type(checked, ty));
                                 }
                                 _ => return false,
                             }
@@ -221,7 +233,11 @@ impl Literal {
                 false
             }
             (Literal::Range(min, max, num_ty), Type::Array(elem_ty, size)) => {
-                elem_ty.as_ref() == &Type::Unsigned(*num_ty) && max - min == *size as u64
+                elem_ty.as_ref() == &Type::Unsigned(*num_ty)
+                    && min <= max
+                    && max - min == *size as u64
+                    // (the last element of the range, max - 1, must be representable as well)
+                    && (min == max || num_ty.max().is_none_or(|limit| *max - 1 <= limit))
             }
             _ => false,
         }
@@ -477,10 +493,20 @@ impl Literal {
                 }
                 bits
             }
-            Literal::Struct(_, fields) => {
+            Literal::Struct(struct_name, fields) => {
                 let mut bits = vec![];
-                for (_, f) in fields {
-                    bits.extend(f.as_bits(checked, const_sizes))
+                // The fields are laid out in the order of the struct definition, which is not
+                // necessarily the order in which a programmatically built literal lists them:
+                if let Some(struct_def) = checked.struct_defs.get(struct_name) {
+                    for (field_name, _) in struct_def.fields.iter() {
+                        if let Some((_, f)) = fields.iter().find(|(name, _)| name == field_name) {
+                            bits.extend(f.as_bits(checked, const_sizes))
+                        }
+                    }
+                } else {
+                    for (_, f) in fields {
+                        bits.extend(f.as_bits(checked, const_sizes))
+                    }
                 }
                 bits
             }
